@@ -373,7 +373,7 @@ func (f *Frame) val(v ssa.Value) Val {
 			return Val{T: u.fresh("glob", "Int"), Typ: c.Type()}
 		}
 		arr, sort := u.globalCell(g)
-		return Val{Typ: c.Type(), Loc: &Loc{Arr: arr, Sort: sort, Typ: g.Type()}}
+		return Val{Typ: c.Type(), Addr: true, Loc: &Loc{Arr: arr, Sort: sort, Typ: g.Type()}}
 	case *ssa.Builtin:
 		return Val{T: "0", Typ: c.Type()}
 	case *ssa.FreeVar:
@@ -548,7 +548,7 @@ func (f *Frame) instr(in ssa.Instruction, st *state) {
 			l := *base.Loc
 			l.Path = append(append([]pathStep{}, l.Path...), pathStep{Field: x.Field, T: st0})
 			l.Typ = ft
-			f.vals[x] = Val{Typ: x.Type(), Loc: &l}
+			f.vals[x] = Val{Typ: x.Type(), Addr: true, Loc: &l}
 			return
 		}
 		f.nilCheck(st, x.X, in)
@@ -557,7 +557,7 @@ func (f *Frame) instr(in ssa.Instruction, st *state) {
 		if al, ok := x.X.(*ssa.Alloc); ok && !f.escaped[al] {
 			local = true
 		}
-		f.vals[x] = Val{Typ: x.Type(), Loc: &Loc{Arr: arr, Sort: sort, Key: base.T, Typ: ft, Local: local}}
+		f.vals[x] = Val{Typ: x.Type(), Addr: true, Loc: &Loc{Arr: arr, Sort: sort, Key: base.T, Typ: ft, Local: local}}
 	case *ssa.IndexAddr:
 		idx := f.val(x.Index).T
 		switch t := x.X.Type().Underlying().(type) {
@@ -565,7 +565,7 @@ func (f *Frame) instr(in ssa.Instruction, st *state) {
 			s := f.val(x.X).T
 			f.check(st, "bounds", fmt.Sprintf("(and (<= 0 %s) (< %s (sl.len %s)))", idx, idx, s), in, "index out of range")
 			arr, sort := u.elemArr(t.Elem())
-			f.vals[x] = Val{Typ: x.Type(), Loc: &Loc{Arr: arr, Sort: sort, Key: "(sl.base " + s + ")", Key2: "(sl.at " + s + " " + idx + ")", Typ: t.Elem()}}
+			f.vals[x] = Val{Typ: x.Type(), Addr: true, Loc: &Loc{Arr: arr, Sort: sort, Key: "(sl.base " + s + ")", Key2: "(sl.at " + s + " " + idx + ")", Typ: t.Elem()}}
 		case *types.Pointer: // *[N]T
 			at := t.Elem().Underlying().(*types.Array)
 			f.check(st, "bounds", fmt.Sprintf("(and (<= 0 %s) (< %s %d))", idx, idx, at.Len()), in, "index out of range")
@@ -577,7 +577,7 @@ func (f *Frame) instr(in ssa.Instruction, st *state) {
 			l := *bl
 			l.Path = append(append([]pathStep{}, l.Path...), pathStep{Field: -1, Idx: idx, T: t.Elem()})
 			l.Typ = at.Elem()
-			f.vals[x] = Val{Typ: x.Type(), Loc: &l}
+			f.vals[x] = Val{Typ: x.Type(), Addr: true, Loc: &l}
 		default:
 			f.havocVal(x, "IndexAddr on "+x.X.Type().String())
 		}
@@ -592,7 +592,7 @@ func (f *Frame) instr(in ssa.Instruction, st *state) {
 		f.call(x, &x.Call, st)
 	case *ssa.ChangeType:
 		v := f.val(x.X)
-		f.vals[x] = Val{T: v.T, Typ: x.Type(), Loc: v.Loc, Fn: v.Fn, Clo: v.Clo}
+		f.vals[x] = Val{T: v.T, Typ: x.Type(), Loc: v.Loc, Addr: v.Addr, Fn: v.Fn, Clo: v.Clo}
 	case *ssa.ChangeInterface:
 		v := f.val(x.X)
 		f.vals[x] = Val{T: v.T, Typ: x.Type()}
@@ -602,7 +602,9 @@ func (f *Frame) instr(in ssa.Instruction, st *state) {
 		v := f.val(x.X)
 		id := u.D.TypeID(x.X.Type())
 		var payload string
-		if u.D.SortOf(x.X.Type()) == "Int" {
+		if v.Addr && v.Loc != nil && v.T == "" {
+			payload = u.addrOf(v.Loc)
+		} else if u.D.SortOf(x.X.Type()) == "Int" {
 			payload = v.T
 		} else {
 			srt := u.D.SortOf(x.X.Type())
@@ -761,6 +763,13 @@ func (f *Frame) unop(x *ssa.UnOp, st *state) {
 		}
 		f.vals[x] = v
 		u.wellFormedLoaded(st.heap, v.T, x.Type())
+		// attribute lists of a parsed pkix.Name are nil or non-empty
+		if n := len(l.Path); n > 0 && l.Path[n-1].Field >= 0 && types.TypeString(l.Path[n-1].T, nil) == "github.com/zmap/zcrypto/x509/pkix.Name" {
+			if _, isSlice := x.Type().Underlying().(*types.Slice); isSlice {
+				u.emit(fmt.Sprintf("(assert (=> (not (= (sl.base %s) 0)) (>= (sl.len %s) 1)))", v.T, v.T))
+				u.trusted["parser invariant: the attribute lists of a parsed pkix.Name are nil or non-empty (built by append)"] = true
+			}
+		}
 	case token.NOT:
 		f.setDef(x, not(f.val(x.X).T))
 	case token.SUB:
@@ -781,6 +790,7 @@ func (f *Frame) unop(x *ssa.UnOp, st *state) {
 
 // wellFormedLoaded states type invariants of a value read from memory.
 func (u *Unit) wellFormedLoaded(h *Heap, t string, typ types.Type) {
+	u.parserInvariant(h, t, typ)
 	switch typ.Underlying().(type) {
 	case *types.Pointer, *types.Map:
 		u.emit(fmt.Sprintf("(assert (and (>= %s 0) (<= %s %s)))", t, t, u.top(h)))
@@ -1069,7 +1079,7 @@ func (f *Frame) convert(x *ssa.Convert, st *state) {
 		f.setDef(x, app(fn, v.T))
 		u.assumeRange(f.vals[x].T, x.Type())
 	case fs == ts:
-		f.vals[x] = Val{T: v.T, Typ: x.Type(), Loc: v.Loc}
+		f.vals[x] = Val{T: v.T, Typ: x.Type(), Loc: v.Loc, Addr: v.Addr}
 	default:
 		f.havocVal(x, "conversion "+x.X.Type().String()+" -> "+x.Type().String())
 	}
@@ -1102,11 +1112,21 @@ func (f *Frame) typeAssert(x *ssa.TypeAssert, st *state) {
 	if x.CommaOk {
 		zero := u.D.Zero(x.AssertedType)
 		rv := u.define(x.Name(), u.D.SortOf(x.AssertedType), ite(okd, res, zero))
+		u.parserInvariant(st.heap, rv, x.AssertedType)
+		if _, isPtr := x.AssertedType.Underlying().(*types.Pointer); isPtr {
+			u.emit("(assert (=> " + okd + " (not (= " + rv + " 0))))")
+			u.trusted["parser invariant: interfaces of parsed objects never hold typed nil pointers"] = true
+		}
 		f.vals[x] = Val{Typ: x.Type(), Tup: []Val{{T: rv, Typ: x.AssertedType}, {T: okd, Typ: types.Typ[types.Bool]}}}
 		return
 	}
 	f.check(st, "typeassert", okd, x, "type assertion to "+shortType(x.AssertedType))
 	f.vals[x] = Val{T: u.define(x.Name(), u.D.SortOf(x.AssertedType), res), Typ: x.AssertedType}
+	u.parserInvariant(st.heap, f.vals[x].T, x.AssertedType)
+	if _, isPtr := x.AssertedType.Underlying().(*types.Pointer); isPtr {
+		u.emit("(assert (=> " + st.cur + " (not (= " + f.vals[x].T + " 0))))")
+		u.trusted["parser invariant: interfaces of parsed objects never hold typed nil pointers"] = true
+	}
 }
 
 func (f *Frame) lookup(x *ssa.Lookup, st *state) {
@@ -1257,4 +1277,38 @@ func (f *Frame) rangeOfLoop(n int) *ssa.Range {
 		}
 	}
 	return nil
+}
+
+
+// parserInvariant: consistency facts about objects built by the zcrypto / x/crypto parsers
+// (assumed; the properties quantify over parser-accepted inputs). Kept deliberately short.
+func (u *Unit) parserInvariant(h *Heap, t string, typ types.Type) {
+	name := types.TypeString(typ, nil)
+	switch name {
+	case "*crypto/rsa.PublicKey":
+		// a parsed RSA public key has a modulus
+		if pt, ok := typ.(*types.Pointer); ok {
+			if st, ok := pt.Elem().Underlying().(*types.Struct); ok {
+				for i := 0; i < st.NumFields(); i++ {
+					if st.Field(i).Name() == "N" {
+						arr, _ := u.fieldArr(pt.Elem(), i)
+						u.emit(fmt.Sprintf("(assert (=> (not (= %s 0)) (not (= (select %s %s) 0))))", t, u.hget(h, arr), t))
+						u.trusted["parser invariant: a parsed *rsa.PublicKey has a non-nil modulus N"] = true
+					}
+				}
+			}
+		}
+	case "github.com/zmap/zcrypto/x509/pkix.Name":
+		// attribute lists are built by append: nil or non-empty
+		if st, ok := typ.Underlying().(*types.Struct); ok {
+			_, sels, _ := u.D.structCtor(typ)
+			for i := 0; i < st.NumFields(); i++ {
+				if _, isSlice := st.Field(i).Type().Underlying().(*types.Slice); isSlice && st.Field(i).Exported() {
+					f := app(sels[i], t)
+					u.emit(fmt.Sprintf("(assert (=> (not (= (sl.base %s) 0)) (>= (sl.len %s) 1)))", f, f))
+				}
+			}
+			u.trusted["parser invariant: the attribute lists of a parsed pkix.Name are nil or non-empty (built by append)"] = true
+		}
+	}
 }
